@@ -323,6 +323,42 @@ func c12Check(c *C12Case, r *core.Rec) {
 	if !sx.same(k.Sample.Xs) {
 		r.Fail("modified", "the KDE modified its sample")
 	}
+	// E-hist on the KDE value itself: its exported fields may be changed between
+	// calls; a used KDE that is then reconfigured must answer like a fresh one.
+	probe := []float64{lo - 0.3*c.H, lo + 0.37*(hi-lo+c.H), hi + 0.9*c.H}
+	for step := 0; step < 4; step++ {
+		used := *k // value copy carries whatever the library cached inside
+		alt := *c
+		switch step {
+		case 0:
+			alt.Kernel = (c.Kernel + 1) % 3
+			used.Kernel = stats.KDEKernel(alt.Kernel)
+		case 1:
+			alt.Kernel = (c.Kernel + 2) % 3
+			used.Kernel = stats.KDEKernel(alt.Kernel)
+		case 2:
+			alt.H = c.H * 1.5
+			used.Bandwidth = alt.H
+		case 3:
+			if c.HasMin || c.HasMax {
+				alt.HasMin, alt.HasMax = false, false
+				used.BoundaryMin, used.BoundaryMax = 0, 0
+			} else {
+				alt.HasMin, alt.Min = true, lo-c.H
+				used.BoundaryMin, used.BoundaryMax = alt.Min, math.Inf(1)
+			}
+		}
+		fresh := alt.kde()
+		for _, x := range probe {
+			a, b := used.CDF(x), fresh.CDF(x)
+			pa, pb := used.PDF(x), fresh.PDF(x)
+			r.Trans(4)
+			if !sameF(a, b) || !sameF(pa, pb) {
+				r.Fail("reconfigured", "a KDE used with kernel %d h=%v and then reconfigured (step %d) gives CDF/PDF(%v)=%v/%v, a fresh KDE with the same fields gives %v/%v", c.Kernel, c.H, step, x, a, pa, b, pb)
+				break
+			}
+		}
+	}
 }
 
 // c12Bandwidth: Scott/Silverman formulas and the lazily filled Bandwidth.
